@@ -2,7 +2,9 @@
  * selection, re-initialisation), C16 (fatal branches leave the registry as it was), C19 (every object the library
  * allocates is owned by exactly one handle: live objects == registered handles), C13/C14 (name comparison).
  * Objects are identities 1..; ms_new / ms_delete are the contract-bearing stand-ins of new X<Scalar>() / delete. */
+#ifndef OMAX
 #define OMAX 1024
+#endif
 _Bool obj_alive[OMAX];           /* allocated and not yet deleted */
 int obj_class[OMAX];             /* catalogue class of each object */
 int ghost_next_obj;              /* next fresh identity */
